@@ -13,6 +13,12 @@
   stream P    : PenalizingEvaluator on an integer objective / box, exact.
   stream O    : per-generation monitors of MOCMA, SteadyStateMOCMA, SMSEMOA, RealCodedNSGAII (3 indicators),
                 RealCodedNSGAIII, MOEAD, RVEA on ZDT/DTLZ functions.
+  stream I    : the indicator classes called directly (leastContributors(front, archive, K)) next to the extracted models of
+                C14Ind.v: AdditiveEpsilonIndicator and HypervolumeIndicator (2 objectives, with and without reference point) over
+                integers, CrowdingDistance over OCaml floats (the model's carrier), exact comparison of the returned index lists.
+                Spec monitors (independent Python): K distinct indices into the front; epsilon rule; hypervolume: every removed
+                point has the least exact contribution; crowding distance by its definition (boundary -> infinity, sum of
+                normalised neighbour differences, first minimum).  The same models answer inside stream S (field mown=).
   stream F8   : HypervolumeIndicator WITHOUT reference point (separate stream, stable key
                 contribution:no-reference-k-too-large)."""
 import os, sys, re, math, itertools
@@ -180,6 +186,7 @@ def compare_S(line, out, mout):
     a, b = kv(out), kv(mout)
     diffs = [k for k in ("ranks", "sel", "K", "front", "archive") if a.get(k) != b.get(k)]
     if b.get("ovalid") != "1": diffs.append("ovalid")
+    if "mown" in b and b["mown"] != a.get("d"): diffs.append("mown")      # the model's own coded indicator (C14Ind.v) vs the list read back
     return diffs
 
 def shrink_S(line, fails):
@@ -255,6 +262,185 @@ def run_S(ck, lines, model, exe, tmpd, label="S"):
                      "correspondence model vs IndicatorBasedSelection no longer checks (%d cases differ in %s); the spec monitor passes on every explored input"
                      % (len(dis), compare_S(lines[i], outs[i], mo[i])), no_input=True)
     return len(mon), len(dis), outs
+
+# ------------------------------------------------------------------------------------------------
+# stream I: indicators called directly
+def fnum(x):
+    return ("%d" % x) if float(x) == int(x) else repr(float(x))
+
+def mk_I(ind, d, F, A, K, aux, head):
+    return "I %s %d %d %d %d %d %s" % (ind, d, len(F), len(A), K, aux,
+                                        " ".join(fnum(x) for x in list(head) + [c for p in F + A for c in p]))
+
+def parse_I(line):
+    t = line.split(); ind, d, nF, nA, K, aux = t[1], int(t[2]), int(t[3]), int(t[4]), int(t[5]), int(t[6])
+    v = [float(x) for x in t[7:]]; nr = aux * d if ind == "N" else d
+    head = v[:nr]; v = v[nr:]
+    if ind != "C" and ind != "N": head = [int(x) for x in head]; v = [int(x) for x in v]
+    P = [v[i * d:(i + 1) * d] for i in range(nF + nA)]
+    return ind, d, P[:nF], P[nF:], K, aux, head
+
+def cd_definition(F, A):
+    """crowding distances of the front members by the definition (Deb et al.): per objective the joint set front+archive is
+    ordered (stable), the two ends get infinity, every other member adds (next - previous)/(max - min).
+    Returns (distances, degenerate) -- degenerate: some objective has range 0 (the quotient is undefined)"""
+    n = len(F); P = F + A; d = len(F[0]); inf = float("inf")
+    bnd = [False] * n; acc = [0.0] * n; degenerate = False
+    for i in range(d):
+        order = sorted(range(len(P)), key=lambda j: P[j][i])
+        lo, hi = P[order[0]][i], P[order[-1]][i]
+        if hi == lo: degenerate = True
+        for pos, j in enumerate(order):
+            if j >= n: continue
+            if pos == 0 or pos == len(order) - 1: bnd[j] = True
+            elif not bnd[j] and hi != lo: acc[j] += (P[order[pos + 1]][i] - P[order[pos - 1]][i]) / (hi - lo)
+    return [inf if bnd[j] else acc[j] for j in range(n)], degenerate
+
+def mutually_nd(F):
+    return not any(dominates(a, b) for a in F for b in F)
+
+def monitor_I(line, out, stats=None):
+    ind, d, F, A, K, aux, head = parse_I(line)
+    if not out.startswith("lcs="): return ["%s::leastContributors(front of %d, archive of %d, K=%d) raised / produced no list: %s" % (ind, len(F), len(A), K, out[:60])]
+    dd = ints(kv(out)["lcs"])
+    if len(dd) != K or len(set(dd)) != len(dd) or any(x < 0 or x >= len(F) for x in dd):
+        return ["%s::leastContributors(front of %d, K=%d) returned the index list %s: not K distinct indices into the front" % (ind, len(F), K, dd)]
+    act = list(range(len(F))); cur = [list(p) for p in F]
+    for x in dd:
+        pos = act.index(x)
+        if ind == "E":
+            w = eps_least(cur)
+            if w != pos: return ["AdditiveEpsilonIndicator removed front member %d, the documented rule (first minimum of min_j max_k(f_j - f_i)) gives member %d (points %s)" % (x, act[w], cur)]
+        elif ind == "H" and aux == 1 and all(all(a <= r for a, r in zip(p, head)) for p in cur) and mutually_nd(cur):
+            c = contribs(cur, head)
+            if c[pos] != min(c): return ["HypervolumeIndicator removed front member %d with contribution %s although the least contribution is %s (front %s, ref %s)" % (x, c[pos], min(c), cur, head)]
+        elif ind == "C" and len(cur) >= 2:
+            dist, degen = cd_definition(cur, A)
+            if degen:
+                if stats is not None: stats["cd_degenerate"] = stats.get("cd_degenerate", 0) + 1
+                if stats is not None and dist[pos] == float("inf") and min(dist) < float("inf"):
+                    stats.setdefault("cd_degenerate_boundary_removed", []).append(line)
+                break                                  # quotient 0/0: outside the definition (NaN in the code; compared with the float model only)
+            w = dist.index(min(dist))
+            if w != pos: return ["CrowdingDistance removed front member %d (distance %r), the definition gives member %d (distance %r); points %s archive %s" % (x, dist[pos], act[w], dist[w], cur, A)]
+        del act[pos]; del cur[pos]
+    return []
+
+def gen_I(rng, big, count):
+    lines = []
+    while len(lines) < count:
+        ind = rng.choice(["E", "C", "C", "H", "H", "N", "N"])
+        S, ref = gen_pop(rng, big)
+        d = len(ref)
+        if ind == "N" and d == 4 and rng.random() < 0.7:
+            S = [p[:3] for p in S]; ref = ref[:3]; d = 3
+        if ind == "H" and d != 2:
+            S = [p[:2] for p in S]; ref = ref[:2]; d = 2
+        shape = rng.random()
+        if shape < 0.7:                       # what the selection hands over: one front, the better fronts as archive
+            rk = py_ranks(S); k = rng.randint(1, max(rk))
+            F = [p for p, r in zip(S, rk) if r == k]; A = [p for p, r in zip(S, rk) if r < k]
+        else:                                 # arbitrary sets
+            cut = rng.randint(1, len(S)); F, A = S[:cut], S[cut:]
+        if ind == "C":
+            q = rng.random()
+            if q < 0.3: sc = rng.choice([0.5, 0.25, 0.125, 3.0]); F = [[c * sc for c in p] for p in F]; A = [[c * sc for c in p] for p in A]
+            elif q < 0.4 and len(F) > 1: j = rng.randrange(d); F = [p[:j] + [F[0][j]] + p[j + 1:] for p in F]      # constant objective inside the front
+            if len(F) + len(A) > 16: A = A[:16 - len(F)]            # std::sort leaves ties in a stable order up to 16 elements
+        if ind == "H" and len(F) > 16: F = F[:16]
+        if ind == "N":
+            q = rng.random()
+            if q < 0.25: sc = rng.choice([0.5, 0.25, 3.0]); F = [[c * sc for c in p] for p in F]; A = [[c * sc for c in p] for p in A]
+            elif q < 0.45: j = rng.randrange(d); c0 = F[0][j]; F = [p[:j] + [c0] + p[j + 1:] for p in F]; A = [p[:j] + [c0] + p[j + 1:] for p in A]   # objective constant over front and archive (87210a93)
+            nZ = rng.randint(1, 6); ticks = rng.randint(1, 4)
+            Z = []
+            while len(Z) < nZ:
+                z = [rng.randint(0, ticks) for _ in range(d)]
+                if any(z): Z.append(z)
+            if rng.random() < 0.3: Z = [[1 if i == j else 0 for i in range(d)] for j in range(d)]      # the coordinate axes
+            for K in (sorted(set([0, 1, len(F), rng.randint(0, len(F))])) if rng.random() < 0.3 else [rng.randint(0, len(F))]):
+                lines.append(mk_I("N", d, F, A, K, len(Z), [c for z in Z for c in z]))
+            continue
+        Ks = sorted(set([0, 1, len(F), rng.randint(0, len(F))])) if rng.random() < 0.3 else [rng.randint(0, len(F))]
+        for K in Ks:
+            aux = (1 if rng.random() < 0.75 else 0) if ind == "H" else 0
+            lines.append(mk_I(ind, d, F, A, K, aux, ref))
+    return lines[:count]
+
+def lcs_of(o):
+    return kv(o).get("lcs") if o.startswith("lcs=") else o.split()[0] if o.strip() else ""
+
+def shrink_I(line, fails):
+    ind, d, F, A, K, aux, head = parse_I(line)
+    changed = True
+    while changed:
+        changed = False
+        for which in ("A", "F"):
+            L = A if which == "A" else F
+            for i in range(len(L)):
+                L2 = L[:i] + L[i + 1:]
+                F2, A2 = (F, L2) if which == "A" else (L2, A)
+                if not F2: continue
+                for K2 in sorted(set([min(K, len(F2)), max(0, K - 1)])):
+                    l2 = mk_I(ind, d, F2, A2, K2, aux, head)
+                    if fails(l2):
+                        F, A, K, changed = F2, A2, K2, True; break
+                if changed: break
+            if changed: break
+    return mk_I(ind, d, F, A, K, aux, head)
+
+def run_I(ck, lines, model, exe, tmpd, label="I"):
+    """direct indicator calls: implementation and extracted model read the same lines; -> (monitor failures, disagreements, stats)"""
+    io = run_cases(exe, [[l] for l in lines], os.path.join(tmpd, label + "_impl.txt"))
+    outs = [o[0] if rc == 0 and o else "CRASH rc=%s" % rc for (o, rc, e) in io]
+    def mline(l, o):       # NSGA3: the answer of the plane solver is the model's oracle (re-derived by the harness)
+        if l.split()[1] != "N": return l
+        sv = kv(o).get("solve", "none")
+        return l + " | " + " ".join(sv.split(","))
+    rc, mo, err = run_lines(model, [mline(l, o) for l, o in zip(lines, outs)], os.path.join(tmpd, label + "_model.txt"))
+    if rc != 0 or len(mo) != len(lines): raise RuntimeError("model driver failed: " + err[-1000:])
+    stats = {}; mon = []; dis = []
+    def differs(o, m):
+        return m.startswith("lcs=") and (lcs_of(o) != lcs_of(m) or ("corners" in kv(m) and kv(m)["corners"] != kv(o).get("corners")))
+    for k, (l, o, m) in enumerate(zip(lines, outs, mo)):
+        msgs = monitor_I(l, o, stats)
+        if msgs: mon.append((k, msgs))
+        elif differs(o, m): dis.append(k)
+        if l.split()[1] == "C" and m.startswith("lcs=") and not msgs:      # cross-check of the monitor against the model's distances
+            ind, d, F, A, K, aux, head = parse_I(l)
+            if len(F) >= 2:
+                dist, degen = cd_definition(F, A)
+                md = [float.fromhex(x) if "nan" not in x else float("nan") for x in kv(m)["dist"].split(",")]
+                md = [float("inf") if x == sys.float_info.max else x for x in md]
+                if not degen and md != dist:
+                    raise RuntimeError("Python crowding-distance monitor disagrees with the extracted model on %s: %s vs %s" % (l, dist, md))
+    def one(l2):
+        rc, o2, _ = run_lines(exe, [l2], os.path.join(tmpd, "i_impl.txt"))
+        o2 = o2[0] if rc == 0 and o2 else "CRASH rc=%s" % rc
+        _, m2, _ = run_lines(model, [mline(l2, o2)], os.path.join(tmpd, "i_model.txt"))
+        return o2, (m2[0] if m2 else "")
+    seen = set()
+    for k, msgs in mon:
+        key = "indicator:%s:%s" % (lines[k].split()[1], re.sub(r"[\d.]+", "N", msgs[0])[:60])
+        if key in seen or len(seen) >= 3: continue
+        seen.add(key)
+        small = shrink_I(lines[k], lambda l2: bool(monitor_I(l2, one(l2)[0])))
+        o2, m2 = one(small); m = monitor_I(small, o2) or msgs
+        cf = ck.write_replay("%s_case_%d.txt" % (label, k), small + "\n")
+        ck.violation(key, {"case_file": cf, "case": small, "implementation_output": o2, "model_output": m2, "monitor": m,
+                           "replay_cmd": "python3 tools/c14.py --replay " + cf}, "spec monitor fails on the implementation: " + m[0])
+    if dis and not mon:
+        k = dis[0]
+        small = shrink_I(lines[k], lambda l2: (lambda om: differs(om[0], om[1]))(one(l2)))
+        o2, m2 = one(small)
+        cf = ck.write_replay("%s_dis_%d.txt" % (label, k), small + "\n")
+        ck.violation("correspondence-indicator", {"case_file": cf, "case": small, "implementation_output": o2, "model_output": m2,
+                                                  "broken": "correspondence C14Ind (eps_lcs / hv_ind_lcs / cd_lcs) vs the indicator classes",
+                                                  "replay_cmd": "python3 tools/c14.py --replay " + cf},
+                     "correspondence indicator models vs %s::leastContributors no longer checks (%d cases differ, e.g. `%s`: implementation %s, model %s); the spec monitor passes on every explored input"
+                     % (small.split()[1], len(dis), small, lcs_of(o2), lcs_of(m2)), no_input=True)
+    stats["modelled"] = sum(1 for m in mo if m.startswith("lcs="))
+    return len(mon), len(dis), stats
 
 # ------------------------------------------------------------------------------------------------
 # stream P
@@ -439,9 +625,11 @@ def main():
     f8_lines = [l for l in corpus if l.startswith("S ") and l.split()[1] == "H" and l.split()[5] == "0"]
     p_lines = [l for l in corpus if l.startswith("P ")]
     o_lines = [l for l in corpus if l.startswith("O ")]
+    i_lines = [l for l in corpus if l.startswith("I ")]
     if not ck.replay:
         s_lines += gen_S(ck.rng, big, 6000 if big else 900)
         p_lines += gen_P(ck.rng, 2000 if big else 300)
+        i_lines += gen_I(ck.rng, big, 8000 if big else 1500)
         o_lines += gen_O(ck.rng, big)
         # default configuration (no reference point) of the hypervolume-based optimisers with small mu: can they reach
         # smallest(front, k) with fewer than k non-extreme points?  (F8)
@@ -469,6 +657,16 @@ def main():
         ck.notes["f8_cases"] = len(f8_lines); ck.notes["f8_failures"] = n8
         ck.oblige("HypervolumeIndicator without reference point returns valid indices inside IndicatorBasedSelection on %d populations" % len(f8_lines),
                   n8 == 0 or bool(ck.known_hits), "%d failures" % n8 if n8 else "")
+
+    # ---- stream I: the indicator classes next to their models
+    if i_lines:
+        im, idis, istats = run_I(ck, i_lines, model, exe, tmpd)
+        ck.oblige("correspondence C14Ind.eps_lcs / hv_ind_lcs / cd_lcs = AdditiveEpsilonIndicator / HypervolumeIndicator (2-D) / CrowdingDistance ::leastContributors on %d direct calls" % len(i_lines),
+                  im == 0 and idis == 0, "%d monitor failures, %d disagreements" % (im, idis) if im or idis else "")
+        ck.notes["indicator_cases"] = len(i_lines); ck.notes["indicator_cases_modelled"] = istats.get("modelled", 0)
+        ck.notes["crowding_constant_objective_cases"] = istats.get("cd_degenerate", 0)
+        ck.notes["crowding_constant_objective_boundary_point_removed"] = len(istats.get("cd_degenerate_boundary_removed", []))
+        ck.notes["crowding_constant_objective_sample"] = istats.get("cd_degenerate_boundary_removed", [])[:2]
 
     # ---- stream P
     pm = pd = 0
@@ -544,7 +742,7 @@ def main():
         ck.oblige("re-initialised optimizer objects repeat the run of fresh objects on %d runs" % len(re_cases), rbad == 0)
         gens_total += sum(len(g) for (_, _, g, _) in [(0, 0, base[c][1], 0) for c in sel])
 
-    ck.cov["evaluations"] = len(s_lines) + len(f8_lines) + len(p_lines) + gens_total
+    ck.cov["evaluations"] = len(s_lines) + len(f8_lines) + len(p_lines) + len(i_lines) + gens_total
     ck.cov["distinct_nontrivial"] = len(set(l for l, o in zip(s_lines, outs) if "K=" in o and int(kv(o)["K"]) > 0)) + len(set(o_lines))
     ck.cov["rule"] = ("S: integer populations (n<=14, d in 2..4, coordinates 0..6; random / single front / chain / duplicates), every mu for a third of the populations, "
                       "4 indicators; non-trivial = the indicator had to name K>0 members of a split front.  P: integer points in/outside integer boxes.  "
